@@ -27,6 +27,14 @@ CLAIMED = {
  "C15": ("proof", "Deductive: _Schedule.enable_eom/disable_eom against the EOM block invariant: the block stores exactly the chosen setpoint and off-detuning, buffers of the configured "
          "(clock-adjusted) length after the previous pulse's fall, detuned-delay buffer iff off-detuning != 0, closing at the channel end; _eom_buffer_time and BaseEOM.rise_time leaves. "
          "Closest off-detuning option and square EOM pulses are decided by the bounded stand-in.", "DESIGN.md section 3 C15"),
+ "C16": ("proof", "Deductive (integer / algebraic core): Waveform.__init__, _check_index and _check_slice against Python's own slice semantics, durations of Constant/Ramp/"
+         "Blackman and the Composite sum (loop invariant), Constant/Ramp samples (first/last/within end points; the automatic division-safety obligation finds the duration-1 ramp), "
+         "change_duration and scaling of Constant/Ramp, Pulse.__init__ (equal lengths, non-negative amplitude, phases mod 2pi), Pulse.ConstantPulse, is_detuned_delay. "
+         "Blackman/Kaiser/Interpolated numerics, from_max_val, finiteness and ArbitraryPhase are decided by the bounded stand-in (durations 1..40 exhaustive).", "DESIGN.md section 3 C16"),
+ "C18": ("proof", "Deductive: check_channels_match (the real nested function) returning ('','') under strict=True implies agreement on type, basis, addressing, mod_bandwidth, "
+         "fixed_retarget_t, clock_period (and min_retarget_interval when it matters); pure leaf lemmas show which timing leaves (rise time, clock rounding) depend only on those fields, "
+         "and which do not (min_duration, custom_phase_jump_time, max_duration, EOM custom_buffer_time: four known findings with witness classes). Timeline equality after the replay, the "
+         "non-strict clause and switch_register are decided by the bounded stand-in (switching finished random histories to variant devices).", "DESIGN.md section 3 C18"),
  "C10": ("proof", "Deductive: phase-jump buffer bound in make_next_pulse_slot; retarget-after-fall, minimum retarget interval and fixed retarget time as invariants preserved by add_target and "
          "all other writers; same-target retarget inserts nothing.", "DESIGN.md section 3 C10"),
 }
